@@ -66,7 +66,9 @@ def check(repo, res, tier):
     res.ok('C05.L10', 'topsim', None, '%d reads of self attributes in %d reachable methods, %d reads on objects of a known '
            'package class' % (nr, nc, no), 'all defined')
     nl, nf = defined.check_names(repo, res, 'C05.L11', reach)
-    res.ok('C05.L11', 'topsim', None, '%d name reads in %d reachable functions' % (nl, nf), 'all bound')
+    npth = defined.check_path_assigned(repo, res, 'C05.L11', reach)
+    res.ok('C05.L11', 'topsim', None, '%d name reads in %d reachable functions, %d loop-complete paths' % (nl, nf, npth),
+           'all bound')
     res.extra['definite_definition'] = {'reachable_functions': len(reach), 'self_attribute_reads': nr, 'typed_object_reads': no, 'name_reads': nl}
     if nr < 300 or nl < 1500 or len(reach) < 100 or no < 60:
         raise AnalysisError('definite-definition rules saw too little (%d attribute reads, %d name reads, %d reachable '
